@@ -249,6 +249,22 @@ func IndexGuarded(fn *ssa.Function, sk IndexSink, taint map[ssa.Value]bool) bool
 			return true
 		}
 	}
+	// slices.Grow(s, k)[:len(s)+k]: the capacity the bound needs is what Grow guarantees
+	if sl, ok := sk.Instr.(*ssa.Slice); ok && sl.High == sk.Idx && sl.Max == nil {
+		if g, isCall := sl.X.(*ssa.Call); isCall {
+			if o := CalleeObj(g); o != nil && o.Pkg() != nil && o.Pkg().Path() == "slices" && o.Name() == "Grow" && len(g.Call.Args) == 2 {
+				if add, isAdd := sl.High.(*ssa.BinOp); isAdd && add.Op == token.ADD {
+					isLenOf := func(v ssa.Value) bool {
+						lc, isLen := v.(*ssa.Call)
+						return isLen && BuiltinName(lc) == "len" && lc.Call.Args[0] == g.Call.Args[0]
+					}
+					if SameExpr(add.Y, g.Call.Args[1], 0) && isLenOf(add.X) || SameExpr(add.X, g.Call.Args[1], 0) && isLenOf(add.Y) {
+						return true
+					}
+				}
+			}
+		}
+	}
 	edges := InBoundsEdges(fn, sk.X, same)
 	return len(edges) > 0 && !Reachable(fn.Blocks[0], edges)[sk.Instr.Block()]
 }
@@ -337,6 +353,32 @@ func isLoopExitTest(ifi *ssa.If) bool {
 				return true
 			}
 		}
+	}
+	return false
+}
+
+// SameExpr: a and b are the same value or the same pure integer expression over the same leaves (go/ssa performs no
+// common-subexpression elimination, so `int(n)*stride` written twice is two instructions).
+func SameExpr(a, b ssa.Value, depth int) bool {
+	if a == b {
+		return true
+	}
+	if depth > 6 {
+		return false
+	}
+	switch x := a.(type) {
+	case *ssa.BinOp:
+		y, ok := b.(*ssa.BinOp)
+		return ok && x.Op == y.Op && SameExpr(x.X, y.X, depth+1) && SameExpr(x.Y, y.Y, depth+1)
+	case *ssa.Convert:
+		y, ok := b.(*ssa.Convert)
+		return ok && types.Identical(x.Type(), y.Type()) && SameExpr(x.X, y.X, depth+1)
+	case *ssa.ChangeType:
+		y, ok := b.(*ssa.ChangeType)
+		return ok && SameExpr(x.X, y.X, depth+1)
+	case *ssa.Const:
+		y, ok := b.(*ssa.Const)
+		return ok && x.Value != nil && y.Value != nil && x.Value.ExactString() == y.Value.ExactString()
 	}
 	return false
 }
